@@ -39,7 +39,7 @@ func (c19) Describe() engine.Info {
 	return engine.Info{
 		Rule: "scenario = calibration, then 10..150 operations over {NRx1 length write, NRx2/NR30 DAC on/off, NRx4 with/without trigger and length enable, NR10 sweep settings (mostly none; some that overflow at the trigger or after a few sweep clocks), NR13/NR14 frequency, NR52 power off/on} at times uniform modulo the 2048-cycle sequencer grid or within +-2 cycles of a grid point; classes short (tens of thousands of cycles) and long (1.1-3.3 million cycles, crossing emulated-second boundaries). " +
 			"Oracle: reference status/length/sweep model (blargg's Game Boy Sound Operation): status on only by trigger with DAC on and no sweep overflow; off by DAC off, power off, sweep overflow, length expiry after exactly 64-t (256-t) length clocks incl. the extra clock when length is enabled, or a zero counter is reloaded by a trigger, in the first half of a length period; NR52 bits 0-3 compared after every machine cycle. Signature = (operation, channel, sequencer step parity at the operation, distance class to the grid point, power)." +
-			" Environment dimensions as C12. Class sweep-on-step: channel 1 with an adding sweep started within two cycles of a frame-sequencer step at a frequency that overflows at a later sweep clock, then left alone. Class sweep-shadow: frequency registers and NR10 rewritten after the trigger, then left alone for 9..40 sweep clocks.",
+			" Environment dimensions as C12. Class sweep-on-step: channel 1 with an adding sweep started within two cycles of a frame-sequencer step at a frequency that overflows at a later sweep clock, then left alone. Class sweep-shadow: frequency registers and NR10 rewritten after the trigger, then left alone for 9..40 sweep clocks. Class expired-then-power-cycle: a note plays out, power cycle, length enable flips and an NRx4-only start.",
 		Assumptions:    []string{"the sequencer grid phase is calibrated per run from the emulator's own first length clock; afterwards strict 2048-cycle periodicity is required, also across power toggles (power-on only resets the step index)", "envelope and amplitudes are not part of this property"},
 		RequiredProbes: []string{"calibrated", "length_expiry", "extra_clock_on_enable", "trigger_reload_in_first_half", "power_toggle", "sweep_overflow", "second_boundary_crossed", "op_within_2_cycles_of_step"},
 		RealComponents: realComponents, StubComponents: stubComponents,
